@@ -322,12 +322,12 @@ def lazy_routers(routes):
     return {"wsgi": wsgi.Router(*[(r, wsgi_endpoint(i)) for i, r in enumerate(routes)]), "asgi": asgi.Router(*[(r, asgi_endpoint(i)) for i, r in enumerate(routes)])}
 
 
-def in_flight(ctx, routes, paths, routers=None):
+def in_flight(ctx, routes, paths, routers=None, pre=None):
     from vf import inflight
     routers = routers or lazy_routers(routes)
     for iface in ("wsgi", "asgi"):
         reqs = [drivers.Req(path=p.encode("utf-8")) for p in paths]
-        inflight.check_group(ctx, iface, routers[iface], reqs, "router", {"routes": routes, "in_flight_paths": paths})
+        inflight.check_group(ctx, iface, routers[iface], reqs, "router", {"routes": routes, "in_flight_paths": paths}, pre=pre)
 
 
 def make(ctx, routes):
@@ -397,7 +397,12 @@ def run(ctx):
     for g in range(ctx.scale(60, 3000)):
         paths = [rng.choice([f"/u/user{rng.randrange(50)}", f"/n/{rng.randrange(1000)}", f"/f/x/{rng.randrange(9)}/y", f"/d/2021-03-{1 + rng.randrange(28):02d}/{rng.randrange(9)}",
                              f"/p{rng.randrange(9)}/q{rng.randrange(9)}", "/static", "/nope", "/n/x"]) for _ in range(rng.choice([2, 3, 5]))]
-        in_flight(ctx, routes, paths, routers)
+        if g % 10 == 0:
+            from vf import inflight
+            with inflight.preemptor() as pre:
+                in_flight(ctx, routes, paths, routers, pre)
+        else:
+            in_flight(ctx, routes, paths, routers)
         ctx.case(("in-flight", tuple(paths)))
     # convertor round trip on generated values of each language
     from baize.routing import CONVERTOR_TYPES
@@ -420,7 +425,12 @@ def run(ctx):
 
 def replay(ctx, case):
     if "in_flight_paths" in case:
-        in_flight(ctx, case["routes"], case["in_flight_paths"])
+        if case.get("preempted"):
+            from vf import inflight
+            with inflight.preemptor() as pre:
+                in_flight(ctx, case["routes"], case["in_flight_paths"], None, pre)
+        else:
+            in_flight(ctx, case["routes"], case["in_flight_paths"])
         ctx.case(1)
         return
     if "routes" in case:
